@@ -41,6 +41,8 @@ def c01_fix(h):
 
 def sig(base, e, h):
     # exact form differs while the behavioural form agrees: only unreachable auth-proxy leftovers differ
+    if base.startswith("DiskIsModel"):
+        return "DiskIsModel:server-slots:shards%d" % (1 if h["opt"].get("shards") else 0)
     if e["inc"] == e["fresh"][0] and all("_auth" in d.split(": ", 1)[0] for d in e["xdiff"]):
         return "DiskExact:auth-proxy-leftover"
     return base + ":shards%d" % (1 if h["opt"].get("shards") else 0)
@@ -109,6 +111,33 @@ def run(ctx):
     import random
     trng = random.Random(ctx.seed * 2147483647 + 5)
     hs += [U.random_tcp_history(trng, "tcp-%d" % i, steps=4 + trng.randrange(3)) for i in range(80 if q else 2000)]
+    # a backend that is not re-parsed gets its free server slots topped up by a reload another backend asked for: its section
+    # (its shard file) has to follow
+    k = 0
+    for sh in (0, 1, 3, 5):
+        for (grow, other) in (("s1", 2), ("s2", 1)):
+            for cause in ("ann", "new", "sec"):
+                t1, t2 = ("t1", "t9") if grow == "s1" else ("t4", "t2")   # t1/t4 -> s1, t9/t2 -> s2
+                first = U.base_ops() + [U.op_sec("c1", "crt:c1"), U.op_sec("c2", "crt:c2"), U.op_ing(1, t1), U.op_ing(2, t2)]
+                if grow == "s1":
+                    slot, tmpl = 2, t2
+                else:
+                    slot, tmpl = 1, t1
+                force = dict(ann=[U.op_ing(slot, tmpl, {"balance-algorithm": "leastconn"})],
+                             new=[U.op_ing(3, "t6" if grow == "s2" else "t3")],
+                             sec=[U.op_sec("c2" if tmpl == "t9" else "c1", "bad")])[cause]
+                steps = [dict(ops=first), dict(ops=[U.op_eps(grow, "e4")]), dict(ops=force), dict(ops=[U.op_eps(grow, "e1")]), dict(ops=[U.op_eps(grow, "e4")])]
+                hs.append(dict(id="refill-%d" % k, opt=dict(shards=sh, watchwithoutclass=True), steps=steps))
+                k += 1
+    # nothing but the content of a secret changes (users of a userlist, a CA bundle): hosts and backends are re-parsed into equal
+    # objects, the files that render the secret still follow
+    for k, (sh, tmpl) in enumerate([(0, "t1"), (3, "t1"), (0, "t4"), (3, "t2")]):
+        steps = [dict(ops=U.base_ops() + [U.op_sec("c1", "crt:c1"), U.op_sec("basic", "auth:usr:pwd"), U.op_sec("ca", "ca:ca1"),
+                                          U.op_ing(1, tmpl, {"auth-secret": "basic", "auth-realm": "r"}),
+                                          U.op_ing(2, "t9", {"auth-tls-secret": "ca", "auth-tls-verify-client": "on"})]),
+                 dict(ops=[U.op_sec("basic", "auth:usr:other")]), dict(ops=[U.op_sec("ca", "ca:ca2")]),
+                 dict(ops=[U.op_sec("basic", "auth:usr2:pwd")]), dict(ops=[U.op_sec("basic", "absent")]), dict(ops=[U.op_sec("basic", "auth:usr:pwd")])]
+        hs.append(dict(id="seconly-%d" % k, opt=dict(shards=sh, watchwithoutclass=True), steps=steps))
     # regression seed of the listed finding (auth-proxy leftovers), so that it is observed on every run
     hs.append(dict(id="seed-auth-leftover", opt=dict(shards=0, watchwithoutclass=True), steps=[
         dict(ops=U.base_ops() + [U.op_ing(1, "t1", {"auth-url": "http://10.0.0.9:8000/auth"})]),
@@ -121,7 +150,7 @@ def run(ctx):
         if e["ev"] == "State":
             e["diff"] = e["xdiff"]
     core.write_ndjson(out, evs)
-    events = ctl.report(ctx, res, out, inp, {"DiskExact"}, extra_sig=sig)
+    events = ctl.report(ctx, res, out, inp, {"DiskExact", "DiskIsModel"}, extra_sig=sig)
     states = [e for e in events if e["ev"] == "State"]
     sample = [dict(history=h["id"], shards=h["opt"].get("shards"), batches=[[o["kind"] + ":" + o["name"] for o in st["ops"]] for st in h["steps"]])
               for h in hs[-2:]]
